@@ -326,6 +326,19 @@ CLAIMED["C19"] = (
     "DESIGN.md section 6 C19",
 )
 
+CLAIMED["C30"] = (
+    "distances.points_segments (both loop orders) and point_pointset are executed on SYMBOLIC point and segment "
+    "coordinates in 2-d and 3-d; the three cases of the projection parameter fork the paths. z3 decides for all "
+    "coordinates that the returned distance is non-negative and equals the Euclidean distance to the returned "
+    "closest point, that the closest point lies on the segment, and that no point of the segment is closer "
+    "(variational inequality of the projection onto a convex set, evaluated at both end points).",
+    "Point-point and point-segment kernels only: 2-d with 1-2 points and 1-2 segments, 3-d with one point and one "
+    "segment; the segment-segment, polygon and overlap routines (closest-feature case splits over nested square "
+    "roots, rotation-based projections) and pointset (scipy cdist) are outside.",
+    "symbolic execution of the real Python source over real terms + SMT (z3 nlsat)",
+    "DESIGN.md section 6 C30",
+)
+
 CLAIMED["C31"] = (
     "point_in_polygon is executed on a family of integer polygons (convex, non-convex, with a hanging node, both "
     "orientations and start vertices) with SYMBOLIC REAL test points (one or two per call): on every path z3 decides "
@@ -433,7 +446,6 @@ NOT_APPLICABLE = {
     "C15": "Biot coupling matrices are by-products of the MPSA local inversion (C13).",
     "C16": "TPSA assembly runs on scipy sparse-array kernels and its second clause needs spsolve of the full system; not encodable within reach.",
     "C18": "RT0/MVEM exactness needs the saddle-point solve (spsolve); SPD-ness for symbolic geometry is a quantified nonlinear inequality on top of einsum/linalg kernels.",
-    "C30": "Distances are square roots compared with each other across case splits (closest feature selection); the nested-root queries were not decided by z3 in time and interval branch-and-bound cannot prove equalities (DESIGN.md 10.5).",
     "C32": "rotation_matrix / project_plane_matrix / compute_normal / 3-d TangentialNormalProjection on symbolic directions produce towers of 3-4 nested square roots; z3 needed minutes per orthogonality obligation or did not return (harness pv/props/c32.py kept, unregistered; DESIGN.md 10.5).",
     "C21": "Quantifies over grid topologies only; all inputs are concrete index arrays processed by compiled scipy kernels - nothing for a solver to decide.",
     "C25": "Meshing pipeline (gmsh, structured splitting on concrete integer topology, np.unique/sort kernels); geometry is concrete once meshed.",
